@@ -3,6 +3,7 @@ package main
 import (
 	"fmt"
 	"math/rand"
+	"sync/atomic"
 	"unicode/utf8"
 
 	regexp2 "github.com/dlclark/regexp2/v2"
@@ -21,8 +22,21 @@ func init() {
 }
 
 // wellFormed checks one match against the input it was found in.
+var accessOrder atomic.Int64
+
 func wellFormed(re *regexp2.Regexp, m *regexp2.Match, im *mon.IndexMap, how string, st func(string)) string {
 	n := len(im.Runes)
+	// the accessors must not depend on the order they are first used in: every other match is first
+	// asked for single groups (by number, by name) and only then for the whole list
+	if k := accessOrder.Add(1); k%2 == 0 {
+		nums := re.GetGroupNumbers()
+		pick := nums[int(k/2)%len(nums)]
+		st("single-lookup-before-Groups")
+		_ = m.GroupByNumber(pick)
+		if k%4 == 0 {
+			_ = m.GroupByName(re.GroupNameFromNumber(pick))
+		}
+	}
 	groups := m.Groups()
 	if m.GroupCount() != len(groups) {
 		return fmt.Sprintf("%s: GroupCount()=%d but Groups() has %d entries", how, m.GroupCount(), len(groups))
@@ -143,6 +157,46 @@ func matchesWellFormed(re *regexp2.Regexp, s string, st func(string)) (detail, i
 	}
 	if res(e) {
 		return "", incon, matches, captures
+	}
+	// rune chain over a rune slice holding values that have no UTF-8 encoding (lone surrogates, values
+	// beyond U+10FFFF, negative values): ByteRange counts each as U+FFFD, like string([]rune)
+	if len(im.Runes) > 0 {
+		hostile := append([]rune(nil), im.Runes...)
+		h := 0
+		for _, r := range hostile {
+			h = h*31 + int(r)
+		}
+		if h < 0 {
+			h = -h
+		}
+		bad := []rune{0xD800, 0xDFFF, 0x110000, 0x7FFFFFFF, -1, 0xDBFF}
+		hostile[h%len(hostile)] = bad[h%len(bad)]
+		if h%3 == 0 {
+			hostile[(h/7)%len(hostile)] = bad[(h/5)%len(bad)]
+		}
+		him := mon.RuneIndexMap(hostile)
+		st("rune-chain-with-unencodable-runes")
+		var hm *regexp2.Match
+		var he error
+		if p, stack := core.Guard(func() {
+			hm, he = re.FindRunesMatch(hostile)
+			for k := 0; hm != nil && he == nil && k <= len(hostile)+2; k++ {
+				count(hm)
+				if d := wellFormed(re, hm, him, fmt.Sprintf("FindRunesMatch chain match #%d on the rune slice %v", k, hostile), st); d != "" {
+					detail = d
+					return
+				}
+				hm, he = re.FindNextMatch(hm)
+			}
+		}); p != nil {
+			return fmt.Sprintf("FindRunesMatch chain on the rune slice %v panicked: %v\n%s", hostile, p, stack), "", matches, captures
+		}
+		if detail != "" {
+			return detail, "", matches, captures
+		}
+		if res(he) {
+			return "", incon, matches, captures
+		}
 	}
 	// StartingAt from the middle
 	if len(im.Runes) > 1 {
